@@ -44,4 +44,6 @@ def run(ctx):
         ctx.judge(res, theorem_hint="Poly.Props.C27.* (model PoW no longer matches SyncBlockHeader / RestructChain)")
         res2 = ctx.correspondence("powbtc", hbin, ["powbtc"], drv, ["powbtc"])
         ctx.judge(res2, theorem_hint="Poly.Props.C27.btc_* (model PoWBtc no longer matches btc commitHeader / GetCommonAncestor / ReIndexHeaderHeight)")
+        res3 = ctx.correspondence("btcdiff", hbin, ["btcdiff"], drv, ["btcdiff"])
+        ctx.judge(res3, theorem_hint="Poly.Props.C27.btc_retarget_eq_spec (model BtcRetarget no longer matches calcDiffAdjust / btcd's compact codec)")
     ctx.judge_lean()
